@@ -342,14 +342,16 @@ func (m *multiEngine) Replay(rf *ReplayFile) *RunOut {
 
 func engineFor(prop string) Engine {
 	switch prop {
-	case "C01", "C02", "C03", "C04", "C07", "C08", "C09", "C10", "C11", "C12", "C13":
+	case "C01", "C02", "C03", "C04", "C09", "C10", "C11", "C12", "C13":
 		return &containerEngine{}
+	case "C07", "C08":
+		return &multiEngine{parts: []Engine{&containerEngine{}, &containerEngine{}, &collEngine{}}}
 	case "C15", "C18":
 		return &multiEngine{parts: []Engine{&containerEngine{}, &containerEngine{}, &containerEngine{}, &inputsEngine{}}}
 	case "C14":
 		return &multiEngine{parts: []Engine{&containerEngine{}, &leakEngine{}}}
 	case "C05":
-		return &multiEngine{parts: []Engine{&containerEngine{}, &graphEngine{}}}
+		return &multiEngine{parts: []Engine{&containerEngine{}, &graphEngine{}, &collEngine{}}}
 	case "C19":
 		return &graphEngine{}
 	case "C17":
